@@ -70,6 +70,8 @@ class FakeTransport(asyncio.DatagramTransport):
             self.loop.call_later(T / 2, self._error, ConnectionRefusedError(111, "Connection refused"))
         elif s == "lost":
             self.loop.call_later(T / 2, self._lost, OSError("network is down"))
+        elif s == "gone":            # the transport goes away cleanly (connection_lost(None)) before anything arrived
+            self.loop.call_later(T / 2, self._lost, None)
 
     def reply(self, n):
         base = getattr(self.loop, "reply_payload", b"REPLY")
@@ -80,7 +82,7 @@ class FakeTransport(asyncio.DatagramTransport):
             self.loop.log(e="dropped", k=self.k)
             return
         self.loop.log(e="deliver", k=self.k, data=list(data))
-        self.proto.datagram_received(data, ("192.0.2.1", 161))
+        self.proto.datagram_received(data, getattr(self.loop, "peer_addr", ("192.0.2.1", 161)))
 
     def _error(self, exc):
         if self.closed:
